@@ -47,7 +47,8 @@ BY_PROPERTY = {
                                               'Mahotas.pybody_labeled_remove_regions_where_eq_model',
                                               'Mahotas.pybody_labeled_is_same_labeling_eq_model',
                                               'Mahotas.pybody_labeled_bwperim_eq_model', 'Mahotas.pybody_labeled_bwperim_binary'])],
-    'C15': [('Mahotas.Proofs.PyBodyTiesC15', ['Mahotas.pybody_euler_euler_eq_model'])],
+    'C15': [('Mahotas.Proofs.PyBodyTiesC15', ['Mahotas.pybody_euler_euler_eq_model', 'Mahotas.pybody_thin_thin_eq_model',
+                                              'Mahotas.pybody_bbox_ordered'])],
     'C17': [('Mahotas.Proofs.PyBodyTiesC17', ['Mahotas.pybody_convolve__wavelet_center_compute_eq_model',
                                               'Mahotas.pybody_convolve_wavelet_center_eq_model',
                                               'Mahotas.pybody_convolve_wavelet_decenter_eq_model'])],
